@@ -52,7 +52,13 @@ namespace BitSerializer::Convert::Detail
 			else
 			{
 				auto value = static_cast<TTarget>(sourceValue);
-				result = (static_cast<TSource>(value) == sourceValue) && !((value > 0 && sourceValue < 0) || (value < 0 && sourceValue > 0));
+				bool isCastBackDefined = true;
+				if constexpr (std::is_floating_point_v<TTarget>)
+				{
+					// An integer near the upper limit may be rounded up to 2^N, which the source type cannot hold (casting it back is undefined)
+					isCastBackDefined = value < static_cast<TTarget>(std::numeric_limits<TSource>::max() / 2 + 1) * 2;
+				}
+				result = isCastBackDefined && (static_cast<TSource>(value) == sourceValue) && !((value > 0 && sourceValue < 0) || (value < 0 && sourceValue > 0));
 				if (result) {
 					targetValue = value;
 				}
